@@ -1,10 +1,14 @@
 package main
 
 import (
+	"bytes"
 	"fmt"
 	"math"
+	"strings"
 
 	"github.com/koykov/dyntpl"
+	"github.com/koykov/inspector/testobj_ins"
+	"github.com/koykov/x2bytes"
 )
 
 // fixed templates that end early or leave per-render state dirty
@@ -224,6 +228,8 @@ func init() {
 				}
 			}
 		}
+		loopVarNames(r)
+		c15Readers(r)
 		// known finding probe: a ctx variable assigned from a counter aliases the counter's storage
 		probe := &RCase{Tpls: []TplDef{{Key: "p", Src: `{% counter cn = 1 %}{% ctx x = cn %}{% counter cn++ %}{%= x %}`, KeepFmt: true}},
 			// four variables first, so that the slot array is not re-allocated when x is appended (the aliasing is capacity dependent)
@@ -236,6 +242,119 @@ func init() {
 			if string(out) != "1" {
 				r.Violate("ctx-alias counter go="+string(out), "a ctx variable assigned from a counter changed when the counter was incremented: printed "+string(out)+" instead of 1", probe.Describe())
 			}
+		}
+	}
+}
+
+// c15Readers: the PUBLIC readers of a context follow the latest assignment too (a relation on the real engine alone):
+// after every pair of assignments to one name through any two of the setters / tags, Ctx.GetCounter is the counter's
+// value iff the latest assignment made the name a counter (0 otherwise) and the text of Ctx.Get is what {%= name %}
+// prints. And a variable NAME for which a variable-inspector pair is registered (RegisterVarInsPair) behaves like any
+// other name when the ctx tag names its type explicitly.
+func c15Readers(r *Run) {
+	type asg struct {
+		desc    string
+		do      func(c *dyntpl.Ctx) bool // false: could not be done
+		counter int                      // value if the name is a counter afterwards, -1 otherwise
+	}
+	tplOf := map[string]string{}
+	viaTpl := func(src string) func(c *dyntpl.Ctx) bool {
+		return func(c *dyntpl.Ctx) bool {
+			k, ok := tplOf[src]
+			if !ok {
+				key, err, pan := regTpl(src, true)
+				if err != nil || pan != "" {
+					return false
+				}
+				k = key
+				tplOf[src] = k
+			}
+			res := renderSafe(k, c)
+			return res.Err == nil && res.Panic == ""
+		}
+	}
+	asgs := []asg{
+		{`SetCounter(n, 7)`, func(c *dyntpl.Ctx) bool { c.SetCounter("n", 7); return true }, 7},
+		{`{% counter n = 5 %}`, viaTpl(`{% counter n = 5 %}`), 5},
+		{`{% counter n = 5 %}{% counter n++ %}`, viaTpl(`{% counter n = 5 %}{% counter n++ %}`), 6},
+		{`SetString(n, "abc")`, func(c *dyntpl.Ctx) bool { c.SetString("n", "abc"); return true }, -1},
+		{`SetBytes(n, "xy")`, func(c *dyntpl.Ctx) bool { c.SetBytes("n", []byte("xy")); return true }, -1},
+		{`SetStatic(n, 42)`, func(c *dyntpl.Ctx) bool { c.SetStatic("n", 42); return true }, -1},
+		{`{% ctx n = "lit" %}`, viaTpl(`{% ctx n = "lit" %}`), -1},
+		{`{% ctx n = src %}`, viaTpl(`{% ctx n = src %}`), -1},
+		{`{% for n := 0; n < 2; n++ %}{% endfor %}`, viaTpl(`{% for n := 0; n < 2; n++ %}{% endfor %}`), -1},
+		{`SetString(n, "")`, func(c *dyntpl.Ctx) bool { c.SetString("n", ""); return true }, -1},
+	}
+	printKey, err, pan := regTpl(`{%= n %}`, true)
+	if err != nil || pan != "" {
+		r.Internal("C15 readers: print template does not parse")
+		return
+	}
+	text := func(v any) string {
+		if v == nil {
+			return ""
+		}
+		b, err := x2bytes.ToBytes(nil, v)
+		if err != nil {
+			return "?" + err.Error()
+		}
+		return string(b)
+	}
+	for _, a := range asgs {
+		for _, b := range asgs {
+			ctx := dyntpl.NewCtx()
+			ctx.SetString("src", "from-src")
+			if !a.do(ctx) || !b.do(ctx) {
+				r.Internal("C15 readers: an assignment could not be made: " + a.desc + " ; " + b.desc)
+				continue
+			}
+			wantC := 0
+			if b.counter >= 0 {
+				wantC = b.counter
+			}
+			gotC := ctx.GetCounter("n")
+			gotV := text(ctx.Get("n"))
+			printed := renderSafe(printKey, ctx)
+			sig := "readers " + a.desc + " ; " + b.desc
+			r.Count(sig, true)
+			r.Dist["public-readers"]++
+			if gotC != wantC || gotV != string(printed.Out) {
+				r.Violate(sig, "after two assignments to one name the public readers do not follow the latest one (Ctx.GetCounter: the counter's value iff the name is a counter now; Ctx.Get: what the print tag prints)",
+					map[string]any{"first": a.desc, "second": b.desc, "GetCounter": gotC, "expected_GetCounter": wantC, "Get_text": gotV, "print_tag_output": string(printed.Out)})
+			}
+		}
+	}
+	// a name with a registered variable-inspector pair, assigned with an explicit type
+	for _, form := range []string{`{% ctx NAME = user.Cost as static %}[{%= NAME %}]{% if NAME == 12.5 %}eq{% else %}ne{% endif %}[{%= e|default(NAME) %}]`,
+		`{% ctx NAME, ok = user.Status.(static) %}[{%= NAME %}|{%= ok %}]{% if NAME >= 78 %}ge{% endif %}`, `{% ctx NAME = user.Id as static %}[{%= NAME %}]{% if NAME == "115" %}id{% endif %}`,
+		`{% ctx NAME = user.Finance %}[{%= NAME.Balance %}]`} {
+		var outs [2]rendered
+		bad := ""
+		for k, name := range []string{"vpairvar", "vplainvar"} {
+			key, err, pan := regTpl(strings.ReplaceAll(form, "NAME", name), true)
+			if err != nil || pan != "" {
+				bad = fmt.Sprintf("Parse rejects the form with %s: %v %s", name, err, pan)
+				break
+			}
+			ctx := dyntpl.NewCtx()
+			ctx.Set("user", (UserSpec{Id: "115", Status: 78, Cost: 12.5, HasFinance: true, Balance: 9000.5}).Build(), testobj_ins.TestObjectInspector{})
+			ctx.SetString("e", "")
+			outs[k] = renderSafe(key, ctx)
+		}
+		sig := "var-ins-pair-name " + form
+		r.Count(sig, true)
+		r.Dist["var-ins-pair-name"]++
+		if strings.HasPrefix(form, "{% ctx NAME = user.Finance %}") {
+			// (no explicit type: the pair supplies the inspector for vpairvar only — the two names legitimately differ)
+			if outs[0].Err != nil || string(outs[0].Out) != "[9000.5]" {
+				r.Violate(sig, "a name with a registered variable-inspector pair does not get the pair's inspector when the ctx tag names no type",
+					map[string]any{"form": form, "output": string(outs[0].Out), "expected": "[9000.5]", "error": outs[0].ErrStr()})
+			}
+			continue
+		}
+		if bad != "" || outs[0].ErrStr() != outs[1].ErrStr() || !bytes.Equal(outs[0].Out, outs[1].Out) {
+			r.Violate(sig, "a variable whose NAME has a registered variable-inspector pair reads differently from a variable of another name although the ctx tag names the type explicitly",
+				map[string]any{"form": form, "pair_name": "vpairvar (RegisterVarInsPair(\"vpairvar\", TestFinanceInspector))", "output": string(outs[0].Out), "other_name_output": string(outs[1].Out), "error": outs[0].ErrStr(), "other_name_error": outs[1].ErrStr(), "problem": bad})
 		}
 	}
 }
